@@ -79,8 +79,10 @@ def registry(idx):
 
 def flow(idx, reg=None):
     reg = reg or registry(idx)
-    return Flow(idx.module(REL), {"estim": [f"{CLS}.{e}" for e in reg["estim"]],
-                                  "bet": [f"{CLS}.{b}" for b in reg["bet"]]})
+    fl = Flow(idx.module(REL), {"estim": [f"{CLS}.{e}" for e in reg["estim"]],
+                                "bet": [f"{CLS}.{b}" for b in reg["bet"]]})
+    fl.expanded = lambda qual: idx.func_x(REL, qual)
+    return fl
 
 
 SAMPLE = Arr(0, 0, True)
